@@ -62,17 +62,17 @@ abbrev Parser (α : Type) := Bytes → Outcome (α × Bytes)
 
 namespace Parser
 
-@[inline] def pure {α} (a : α) : Parser α := fun s => .ok (a, s)
+@[inline] def ret {α} (a : α) : Parser α := fun s => .ok (a, s)
 
-@[inline] def bind {α β} (p : Parser α) (f : α → Parser β) : Parser β := fun s =>
+@[inline] def andThen {α β} (p : Parser α) (f : α → Parser β) : Parser β := fun s =>
   match p s with
   | .ok (a, s') => f a s'
   | .err => .err
   | .panic => .panic
 
 instance : Monad Parser where
-  pure := Parser.pure
-  bind := Parser.bind
+  pure := Parser.ret
+  bind := Parser.andThen
 
 @[inline] def fail {α} : Parser α := fun _ => .err
 @[inline] def crash {α} : Parser α := fun _ => .panic
